@@ -792,6 +792,16 @@ package gldap
 //@   sets G_twait[wg] = G_clock[0]
 //@   panics false
 
+// Stop waits for connWg under the server's read lock, on another thread than the
+// accept loop: an Add from a possibly-zero counter that is not ordered before
+// that Wait lets Stop return while a connection is still to be served (T-WG).
+//@ wgorder gldap.Server.connWg : G_wgcnt[&this.connWg] > 0 || heldw(&this.mu)
+// the scheduling hook of the harness (no-op without the build tag)
+//@ func gldap.verifYield
+//@   trusted
+//@   panics false
+//@   modifies nothing
+
 // A-USER: the OnClose callback does not panic.
 //@ functype gldap.OnCloseHandler
 //@   params f OnCloseHandler, connectionID int
